@@ -5,7 +5,7 @@
     a [probe] that renders a read item through all of its accessors. *)
 From FC Require Import Base.Res Index.IC Index.Stride Region.Region Region.Owned Region.Simple
   Region.Slice Region.Collapse Region.Consec Region.Columns Codec.Dictionary Huffman.Huffman Region.Items Region.ItemsOk Region.Compare Resource.Res.
-From FC Require Export Base.UVal Serde.Ser.
+From FC Require Export Base.UVal Serde.Ser Region.CloneFrom.
 Set Implicit Arguments.
 
 Record Wire (R : Region) (I : Items R) := {
@@ -61,6 +61,7 @@ Record MRegion := {
   m_res : Res mr;                         (* used bytes per heap_size callback, announced bytes *)
   m_ord : option (ItemOrd mi);            (* Ord of the read items, where the Rust type has one *)
   m_ser : option (RSer mr);               (* the serialised form, where the Rust type derives Serialize *)
+  m_clone : option (RClone mr);           (* clone_from, where the Rust type implements Clone *)
 }.
 
 Definition m_owned (E : Elem) : MRegion := {|
@@ -71,21 +72,21 @@ Definition m_owned (E : Elem) : MRegion := {|
           (fun i : nat * nat => upair (fst i) (snd i))
           (fun x : list (e_ty E) => Ok (UL (map (e_to E) x)));
   m_veq := list_eqb (e_eqb E); m_res := owned_res (e_ty E) (e_sz E);
-  m_ord := option_map (@owned_ord (e_ty E)) (e_cmp E); m_ser := Some (owned_ser (e_to E)) |}.
+  m_ord := option_map (@owned_ord (e_ty E)) (e_cmp E); m_ser := Some (owned_ser (e_to E)); m_clone := Some (owned_clone (e_ty E)) |}.
 
 Definition m_mirror (E : Elem) : MRegion := {|
   mr := mirror (e_ty E); mi := mirror_items (e_ty E);
   mw := @Build_Wire (mirror (e_ty E)) (mirror_items (e_ty E))
           (e_of E) (e_to E) (e_to E) (fun x : e_ty E => Ok (e_to E x));
   m_veq := e_eqb E; m_res := mirror_res (e_ty E); m_ord := option_map (@mirror_ord (e_ty E)) (e_cmp E);
-  m_ser := Some (mirror_ser (e_to E)) |}.
+  m_ser := Some (mirror_ser (e_to E)); m_clone := Some (mirror_clone (e_ty E)) |}.
 
 Definition m_vec (E : Elem) : MRegion := {|
   mr := vec_region (e_ty E); mi := vec_region_items (e_ty E);
   mw := @Build_Wire (vec_region (e_ty E)) (vec_region_items (e_ty E))
           (e_of E) (e_to E) (fun i : nat => unat i) (fun x : e_ty E => Ok (e_to E x));
   m_veq := e_eqb E; m_res := vec_region_res (e_ty E) (e_sz E);
-  m_ord := option_map (@vec_region_ord (e_ty E)) (e_cmp E); m_ser := Some (vec_region_ser (e_to E)) |}.
+  m_ord := option_map (@vec_region_ord (e_ty E)) (e_cmp E); m_ser := Some (vec_region_ser (e_to E)); m_clone := Some (vec_region_clone (e_ty E)) |}.
 
 (** [StringRegion<R>] over a byte region; strings travel as byte lists. The [Push] impls only
     take string types, so an input that is not valid UTF-8 is ill-typed ([utf8_valid] lives in
@@ -96,7 +97,8 @@ Definition m_string (wf : uval -> bool) (M : MRegion) : MRegion := {|
           (fun u => if wf u then of_u (mw M) u else None)
           (to_u (mw M)) (idx_u (mw M)) (probe (mw M));
   m_veq := m_veq M; m_res := string_res (m_res M);
-  m_ord := option_map (@string_ord (mr M) (mi M)) (m_ord M); m_ser := option_map (@string_ser (mr M)) (m_ser M) |}.
+  m_ord := option_map (@string_ord (mr M) (mi M)) (m_ord M); m_ser := option_map (@string_ser (mr M)) (m_ser M);
+  m_clone := option_map (@string_clone (mr M)) (m_clone M) |}.
 
 Definition m_option (M : MRegion) : MRegion := {|
   mr := option_region (mr M); mi := option_items (mi M);
@@ -116,7 +118,7 @@ Definition m_option (M : MRegion) : MRegion := {|
                       | _, _ => false
                       end;
   m_res := option_res (m_res M); m_ord := option_map (@option_ord (mr M) (mi M)) (m_ord M);
-  m_ser := option_map (@option_ser (mr M)) (m_ser M) |}.
+  m_ser := option_map (@option_ser (mr M)) (m_ser M); m_clone := option_map (@option_clone (mr M)) (m_clone M) |}.
 
 Definition m_result (A B : MRegion) : MRegion := {|
   mr := result_region (mr A) (mr B); mi := result_items (mi A) (mi B);
@@ -142,7 +144,8 @@ Definition m_result (A B : MRegion) : MRegion := {|
                       end;
   m_res := result_res (m_res A) (m_res B);
   m_ord := match m_ord A, m_ord B with Some a, Some b => Some (result_ord a b) | _, _ => None end;
-  m_ser := match m_ser A, m_ser B with Some a, Some b => Some (result_ser a b) | _, _ => None end |}.
+  m_ser := match m_ser A, m_ser B with Some a, Some b => Some (result_ser a b) | _, _ => None end;
+  m_clone := match m_clone A, m_clone B with Some a, Some b => Some (result_clone a b) | _, _ => None end |}.
 
 Definition m_tuple2 (A B : MRegion) : MRegion := {|
   mr := tuple2 (mr A) (mr B); mi := tuple2_items (mi A) (mi B);
@@ -159,7 +162,8 @@ Definition m_tuple2 (A B : MRegion) : MRegion := {|
   m_veq := fun a b => m_veq A (fst a) (fst b) && m_veq B (snd a) (snd b);
   m_res := tuple2_res (m_res A) (m_res B);
   m_ord := match m_ord A, m_ord B with Some a, Some b => Some (tuple2_ord a b) | _, _ => None end;
-  m_ser := match m_ser A, m_ser B with Some a, Some b => Some (tuple2_ser a b) | _, _ => None end |}.
+  m_ser := match m_ser A, m_ser B with Some a, Some b => Some (tuple2_ser a b) | _, _ => None end;
+  m_clone := match m_clone A, m_clone B with Some a, Some b => Some (tuple2_clone a b) | _, _ => None end |}.
 
 (** [CodecRegion<DictionaryCodec, OwnedRegion<u8>>] *)
 Definition bytes_of_u (u : uval) : option (list N) :=
@@ -178,7 +182,7 @@ Definition m_codec : MRegion := {|
                       (fun _ => [0%N]);
   m_ord := Some (@Build_ItemOrd codec_owned (codec_items (owned N) (fun v : list N => v) (fun v : list N => v))
                    (fun x y : list N => Ok (lex_cmp N.compare x y)) (lex_cmp N.compare));
-  m_ser := None |}.
+  m_ser := None; m_clone := None |}.
 
 (** [HuffmanContainer<B>], B an unsigned integer type of [bits] bits *)
 Definition m_huffman (bits : N) : MRegion := {|
@@ -194,7 +198,7 @@ Definition m_huffman (bits : N) : MRegion := {|
   m_res := @Build_Res huffman_region (fun _ => []) (fun _ => []);
   m_ord := Some (@Build_ItemOrd huffman_region huffman_items
                    (fun x y : list N => Ok (lex_cmp N.compare x y)) (lex_cmp N.compare));
-  m_ser := None |}.
+  m_ser := None; m_clone := Some (@Build_RClone huffman_region (fun _ s => s)) |}.
 
 (** the report of a sequence-like read item: len, is_empty, get(0 .. len+1), iteration, owned *)
 Section SeqProbe.
@@ -227,14 +231,15 @@ Definition m_slice (M : MRegion) (O : IC (idx (mr M))) {OS : ICSer O} : MRegion 
              seq_probe (mw M) (rs_len (O := O)) (rs_is_empty (O := O)) (rs_get (mi M))
                        (rs_iter (mi M)) (own (slice_items O (mi M))) x);
   m_veq := list_eqb (m_veq M); m_res := slice_res O 0 (m_res M);
-  m_ord := option_map (@slice_ord (mr M) O (mi M)) (m_ord M); m_ser := option_map (@slice_ser (mr M) O OS) (m_ser M) |}.
+  m_ord := option_map (@slice_ord (mr M) O (mi M)) (m_ord M); m_ser := option_map (@slice_ser (mr M) O OS) (m_ser M);
+  m_clone := option_map (@slice_clone (mr M) O) (m_clone M) |}.
 
 Arguments m_slice M O {OS}.
 
 (** [SliceRegion<R, Vec<R::Index>>]: the same region with the announced index bytes known *)
 Definition m_slice_vec (M : MRegion) (isz : N) : MRegion :=
   let S := m_slice M (vec_ic (idx (mr M)) isz) in
-  {| mr := mr S; mi := mi S; mw := mw S; m_veq := m_veq S; m_res := slice_vec_res isz (m_res M); m_ord := m_ord S; m_ser := m_ser S |}.
+  {| mr := mr S; mi := mi S; mw := mw S; m_veq := m_veq S; m_res := slice_vec_res isz (m_res M); m_ord := m_ord S; m_ser := m_ser S; m_clone := m_clone S |}.
 
 Definition m_collapse (M : MRegion) : MRegion := {|
   mr := collapse (mr M) (m_veq M); mi := collapse_items (m_veq M) (mi M);
@@ -242,7 +247,8 @@ Definition m_collapse (M : MRegion) : MRegion := {|
           (of_u (mw M)) (to_u (mw M)) (idx_u (mw M)) (probe (mw M));
   m_veq := m_veq M; m_res := collapse_res (m_veq M) (m_res M);
   m_ord := option_map (@collapse_ord (mr M) (m_veq M) (mi M)) (m_ord M);
-  m_ser := option_map (@collapse_ser (mr M) (m_veq M)) (m_ser M) |}.
+  m_ser := option_map (@collapse_ser (mr M) (m_veq M)) (m_ser M);
+  m_clone := option_map (@collapse_clone (mr M) (m_veq M)) (m_clone M) |}.
 
 Definition m_consec (M : MRegion) {PI : PairIdx (mr M)} (O : IC nat) {OS : ICSer O} (chk : bool) : MRegion := {|
   mr := consec (mr M) O chk; mi := consec_items O chk (mi M);
@@ -250,7 +256,8 @@ Definition m_consec (M : MRegion) {PI : PairIdx (mr M)} (O : IC nat) {OS : ICSer
           (of_u (mw M)) (to_u (mw M)) (fun k : nat => unat k) (probe (mw M));
   m_veq := m_veq M; m_res := consec_res O chk (m_res M);
   m_ord := option_map (@consec_ord (mr M) PI O chk (mi M)) (m_ord M);
-  m_ser := option_map (@consec_ser (mr M) PI O OS chk) (m_ser M) |}.
+  m_ser := option_map (@consec_ser (mr M) PI O OS chk) (m_ser M);
+  m_clone := option_map (@consec_clone (mr M) PI O chk) (m_clone M) |}.
 
 Arguments m_consec M {PI} O {OS} chk.
 
@@ -264,5 +271,6 @@ Definition m_columns (M : MRegion) (O : IC nat) {OS : ICSer O} (chk : bool) (csz
              seq_probe (mw M) (fun y => Ok (rc_len y)) (fun y => Ok (rc_is_empty y)) (rc_get (mi M))
                        (rc_iter (mi M)) (own (columns_items O chk (mi M))) x);
   m_veq := list_eqb (m_veq M); m_res := columns_res O chk csz isz (m_res M); m_ord := None;
-  m_ser := option_map (@columns_ser (mr M) O OS chk) (m_ser M) |}.
+  m_ser := option_map (@columns_ser (mr M) O OS chk) (m_ser M);
+  m_clone := option_map (@columns_clone (mr M) O chk) (m_clone M) |}.
 Arguments m_columns M O {OS} chk csz isz.
